@@ -124,6 +124,7 @@
 	#include <curl/curl.h>
 #endif
 
+#include "char.h"
 #include "file.h"
 #include "miniz.h"
 #include "stack.h"
@@ -288,19 +289,31 @@ void traverse_for_images(token * t, DString * text, mmd_engine * e, long * offse
 				if (t->next && t->next->type == PAIR_PAREN) {
 					t = t->next;
 
-					memcpy(url, &text->str[t->start + *offset + 1], t->len - 2);
-					url[t->len - 2] = '\0';
-					clean = clean_string(url, false, true);
+					// Only the URL is looked up -- a title or attributes may follow it,
+					// and it may be longer than any fixed buffer
+					size_t pos = t->start + 1;
+					size_t end = t->start + t->len - 1;
 
-					HASH_FIND_STR(e->asset_hash, clean, a);
-
-					if (a) {
-						// Replace url with asset path
-						memcpy(&destination[7], a->asset_path, 36);
-						* offset += d_string_replace_text_in_range(text, t->start + *offset, t->len, clean, destination);
+					while (pos < end && char_is_whitespace(e->dstr->str[pos])) {
+						pos++;
 					}
 
-					free(clean);
+					char * raw = url_accept(e->dstr->str, pos, end - pos, &pos, false);
+
+					if (raw) {
+						clean = clean_string(raw, false, true);
+
+						HASH_FIND_STR(e->asset_hash, clean, a);
+
+						if (a) {
+							// Replace url with asset path
+							memcpy(&destination[7], a->asset_path, 36);
+							* offset += d_string_replace_text_in_range(text, t->start + *offset, t->len, clean, destination);
+						}
+
+						free(clean);
+						free(raw);
+					}
 				}
 
 				break;
